@@ -48,6 +48,7 @@ pub fn run(obligation: &str) -> i32 {
     if ["C06.generate_integer", "C06.integer_template", "C04.generate_typealias", "C04.generate_octet_string", "C04.generate_bit_string", "C04.typealias_template", "C04.octet_string_template", "C04.fixed_octet_string_template", "C04.bit_string_template", "C04.fixed_bit_string_template"].iter().any(|p| obligation.starts_with(p)) { gen_assignments(&mut rep); return rep.finish("GEN_assignments"); }
     if obligation.starts_with("C02.type_table") || obligation.starts_with("C02.string_type") || obligation.starts_with("C02.qualified_type") { gen_type_table(&mut rep); return rep.finish("GEN_type_table"); }
     if obligation.starts_with("C07.value_to_tokens") { gen_values(&mut rep); return rep.finish("GEN_values"); }
+    if obligation.starts_with("C03.generate_any") || obligation.starts_with("C03.any_template") { gen_any(&mut rep); return rep.finish("GEN_blocks"); }
     if obligation.starts_with("C02.generate_type") || obligation.starts_with("C02.generate_tld") { gen_dispatch(&mut rep); return rep.finish("GEN_dispatch"); }
     if obligation.starts_with("C02.format_sequence_or_set_members") || obligation.starts_with("C02.format_choice_options") { gen_member_lists(&mut rep); return rep.finish("GEN_members"); }
     if ["C02.format_member_or_option", "C02.format_sequence_member", "C02.format_choice_option", "C02.boxed_type", "C02.format_default_methods"].iter().any(|p| obligation.starts_with(p)) { gen_members(&mut rep); gen_default_methods(&mut rep); return rep.finish("GEN_members"); }
@@ -584,6 +585,25 @@ fn gen_dispatch(rep: &mut Rep) {
     rep.check("C02.generate_tld.a_type_assignment_goes_to_the_generator_of_its_kind", true, || String::new());
     let got = rasn_compiler::verif_hooks::hook_generate_value_tld("max-val", 5);
     rep.check("C02.generate_tld.a_value_assignment_goes_to_generate_value", matches!(&got, Ok(t) if nows(t).contains("pubconstMAX_VAL:u8=5;")), || format!("max-val INTEGER ::= 5 (tagged Uint8) -> {got:?}"));
+}
+
+/// generate_any on the real crate: ANY / EXTERNAL / EMBEDDED PDV assignments x {untagged, four classes x two resolved modes}; expected `#[rasn(delegate[, tag(..)])] pub struct T(pub Any);`
+fn gen_any(rep: &mut Rep) {
+    use rasn_compiler::verif_hooks::hook_generate_type;
+    let nows = |s: &str| s.chars().filter(|c| !c.is_whitespace()).collect::<String>();
+    for (text, ty) in [("ANY", ASN1Type::Any), ("EXTERNAL", ASN1Type::External), ("EMBEDDED PDV", ASN1Type::EmbeddedPdv)] {
+        let mut tags: Vec<Option<AsnTag>> = vec![None];
+        for tc in [TagClass::Universal, TagClass::Application, TagClass::Private, TagClass::ContextSpecific] { for mode in [TaggingEnvironment::Implicit, TaggingEnvironment::Explicit] { for id in [0u64, u64::MAX] { tags.push(Some(AsnTag { environment: mode, tag_class: tc, id })); } } }
+        for tag in tags {
+            let got = hook_generate_type(TaggingEnvironment::Implicit, false, &ty, tag.clone());
+            let w = |c: TagClass| match c { TagClass::Universal => "universal", TagClass::Application => "application", TagClass::Private => "private", TagClass::ContextSpecific => "context" };
+            let want = match &tag { None => "#[rasn(delegate)]pubstructT(pubAny);".to_string(), Some(t) => if t.environment == TaggingEnvironment::Explicit { format!("#[rasn(delegate,tag(explicit({},{})))]pubstructT(pubAny);", w(t.tag_class), t.id) } else { format!("#[rasn(delegate,tag({},{}))]pubstructT(pubAny);", w(t.tag_class), t.id) } };
+            let d = || format!("T ::= {:?} {text} -> {}", tag, match &got { Ok(t) => { let t = nows(t); t[t.find("#[derive").unwrap_or(0)..].to_string() } Err(e) => format!("ERR {e}") });
+            rep.check("C03.generate_any.fails_only_when_joining_the_annotations_fails", got.is_ok(), d);
+            rep.check("C03.generate_any.newtype_over_any_with_delegate_its_own_tag_and_the_identifier_when_mangled", matches!(&got, Ok(t) if nows(t).contains(&want)), d);
+            rep.check("C03.any_template.newtype_over_any", matches!(&got, Ok(t) if nows(t).contains("pubstructT(pubAny);")), d);
+        }
+    }
 }
 
 /// format_default_methods on the real crate: lists of 0..=4 components, each required / OPTIONAL / DEFAULT, of type BOOLEAN, INTEGER,
